@@ -164,6 +164,18 @@ ById(h, id, kinds) ==
   LET S == {k \in 1..Len(h.reqs) : InFlight(h, k) /\ h.reqs[k].id = id /\ h.reqs[k].kind \in kinds}
   IN IF S = {} THEN 0 ELSE CHOOSE k \in S : \A j \in S : k >= j
 
+\* requests accepted on an earlier connection of this broker session, unacknowledged, and not yet
+\* retransmitted on the current connection
+Owing(h) == {j \in 1..Len(h.reqs) : InFlight(h, j) /\ h.reqs[j].cc < h.ci /\ h.reqs[j].id # 0
+               /\ (IF h.reqs[j].ph = "rec" THEN h.reqs[j].rsc # h.ci ELSE h.reqs[j].sc # h.ci)}
+
+\* C17: something that is no first transmission of anything went out while retransmissions are owed:
+\* the stored bytes of an unacknowledged packet have been altered
+C17Owed(h0, h) ==
+  IF h0.ack.have /\ h0.ack.sp = 1 /\ {j \in Owing(h0) : h0.reqs[j].ph = "new"} # {}
+  THEN Viol(h, "C17", "a packet that equals no first transmission was sent while retransmissions are owed")
+  ELSE h
+
 Truth(h, k) ==
   LET r == h.reqs[k] IN
   IF r.ep # h.epoch THEN "i" ELSE IF r.ph = "done" THEN "c" ELSE "p"
@@ -235,7 +247,7 @@ OutRequest(h0, d, pkt) ==
      IF byid # 0 /\ h.reqs[byid].bytes # << >> /\ ClearDup(pkt) # h.reqs[byid].bytes
      THEN Viol(Viol(h1, "C17", "retransmission differs from the first transmission"),
                pp, "retransmission is not byte-identical")
-     ELSE h1
+     ELSE C17Owed(h, h1)
   ELSE
   LET r == h.reqs[k]
       first == r.id = 0
@@ -265,8 +277,7 @@ OutRequest(h0, d, pkt) ==
             THEN Check(h7, later = {}, "C02", "publishes were transmitted out of acceptance order")
             ELSE h7
       \* C05: on a resumed connection everything unacknowledged is replayed before anything new
-      owing == {j \in 1..Len(h.reqs) : InFlight(h, j) /\ h.reqs[j].cc < h.ci /\ h.reqs[j].id # 0
-                  /\ (IF h.reqs[j].ph = "rec" THEN h.reqs[j].rsc # h.ci ELSE h.reqs[j].sc # h.ci)}
+      owing == Owing(h)
       h9 == IF r.cc = h.ci
             THEN Check(h8, owing = {}, "C05",
                        "a new identifier-bearing packet was sent before the replay finished")
@@ -348,7 +359,7 @@ OnOut(h, pkt) ==
                      "D3", d0.st = "badflags" /\ d0.fl = 10 /\ replayed)
       \* once the outbound stream is garbled nothing written later on this transport can be attributed
       \* to a request: the other monitors stop for the rest of this run (as for D2)
-      h1 == IF d.st # "ok" /\ Len(h1a.v) > Len(h0.v) THEN [h1a EXCEPT !.taint = 2] ELSE h1a
+      h1 == IF d.st # "ok" /\ Len(h1a.v) > Len(h0.v) THEN [C17Owed(h, h1a) EXCEPT !.taint = 2] ELSE h1a
       h2 == Check(h1, (h.wn = 0) = (pkt[1] \div 16 = CONNECT), "C01",
                   "CONNECT must be the first and only the first packet on a transport")
       \* D2: a disconnect() whose future was dropped after its DISCONNECT had reached the wire
@@ -377,7 +388,7 @@ DrainOut(h) ==
            rest == SubSeq(h.wtail, f.len + 1, Len(h.wtail))
        IN DrainOut(OnOut([h EXCEPT !.wtail = rest], pkt))
   ELSE IF f.st = "bad"
-  THEN Viol([h EXCEPT !.wtail = << >>, !.taint = 2], "C01", "outbound byte stream cannot be framed")
+  THEN C17Owed(h, Viol([h EXCEPT !.wtail = << >>, !.taint = 2], "C01", "outbound byte stream cannot be framed"))
   ELSE h
 
 ---------------------------------------------------------------------------
